@@ -682,28 +682,28 @@ Proof. intros [S|[nq N]] E; subst; discriminate. Qed.
 Lemma agg_step_ok (ev : event) (ty : string) (g : aggk) (acc v a' : value) :
   agg_step ev ty g acc v = ROk a' -> arithable a'.
 Proof.
-  unfold agg_step. destruct (match g with ACount => ROk (VInt 1) | ASum body => db ev v body end); cbn [rbind]; try discriminate.
-  destruct (arith "+" acc a) eqn:E; cbn [rbind]; try discriminate. intro H. inversion H; subst.
+  unfold agg_step. destruct (match g with ACount => ROk (VInt 1) | AAgg _ _ body => db ev v body end); cbn [rbind]; try discriminate.
+  destruct (arith (agg_op g) acc a) eqn:E; cbn [rbind]; try discriminate. intro H. inversion H; subst.
   apply conv_arithable. eapply arith_arithable. exact E.
 Qed.
 
 (* acc = acc + E, for any expression E whose value in the state is known *)
-Lemma exec_agg_update (brs : list branch) (ev : event) (agg ty : string) (E : cexp) (R : res value) (s : state) (acc : value) :
+Lemma exec_agg_update (brs : list branch) (ev : event) (agg ty op : string) (E : cexp) (R : res value) (s : state) (acc : value) :
   fget agg s = Some (ty, acc) -> acc <> VUninit -> eval ev s E = R ->
-  exec_stmt brs ev (agg_update agg E) s =
-  match (rdo x <- R; rdo sm <- arith "+" acc x; ROk (conv ty sm)) with
+  exec_stmt brs ev (agg_update agg op E) s =
+  match (rdo x <- R; rdo sm <- arith op acc x; ROk (conv ty sm)) with
   | ROk a' => ROk (upd agg a' s)
   | RFault f => RFault f
   | RStuck k => RStuck k
   end.
 Proof.
   intros H Hu He. unfold agg_update. rewrite exec_set.
-  change (eval ev s (CBin "+" (CVar agg) E))
-    with (rbind (eval ev s (CVar agg)) (fun x => rbind (eval ev s E) (fun y => arith "+" x y))).
+  change (eval ev s (CBin op (CVar agg) E))
+    with (rbind (eval ev s (CVar agg)) (fun x => rbind (eval ev s E) (fun y => arith op x y))).
   rewrite eval_var. rewrite (lookup_fget _ _ _ H).
   assert (Ea : (match acc with VUninit => RStuck (KUninit agg) | _ => ROk acc end) = ROk acc) by (destruct acc; try reflexivity; contradiction).
   rewrite Ea. cbn [rbind]. rewrite He. destruct R as [x|f|k]; cbn [rbind]; try reflexivity.
-  destruct (arith "+" acc x) as [sm|f|k]; cbn [rbind]; try reflexivity.
+  destruct (arith op acc x) as [sm|f|k]; cbn [rbind]; try reflexivity.
   destruct (assign_upd agg (conv ty sm) s ty acc H) as (Ha & _). rewrite Ha. reflexivity.
 Qed.
 
@@ -779,7 +779,7 @@ Lemma loop_agg (brs : list branch) (ev : event) (iv : string) (ar : bool) (agg t
   (forall j, String.eqb agg (if_name j) = false) -> (forall j, String.eqb (if_name j) iv = false) ->
   String.eqb iv (bo_name n) = false -> String.eqb (bo_name n) iv = false ->
   nstuck (agg_loop ev ty g gd l acc) ->
-  for_loop brs ev iv (loop_block iv ar gd n (agg_ds g m) (app_stmts (agg_pre iv ar g m) (one_stmt (agg_update agg (agg_summand iv ar g m))))) l st =
+  for_loop brs ev iv (loop_block iv ar gd n (agg_ds g m) (app_stmts (agg_pre iv ar g m) (one_stmt (agg_update agg (agg_op g) (agg_summand iv ar g m))))) l st =
   match agg_loop ev ty g gd l acc with
   | ROk z => ROk (upd agg z st)
   | RFault f => RFault f
@@ -796,35 +796,35 @@ Proof.
     rewrite exec_stmts_app.
     (* after the conditionals: a state S1 = istate .. T' st in which the summand has its reference value *)
     assert (Step : exists T',
-              (match (match g with ACount => ROk [] | ASum body => dconds ev v body end) with
+              (match (match g with ACount => ROk [] | AAgg _ _ body => dconds ev v body end) with
                | ROk rs => exec_stmts brs ev (agg_pre iv ar g m) (istate gd n iv v (dframe (agg_ds g m)) st) = ROk (istate gd n iv v T' st) /\
                            frame_get iv T' = None /\ frame_get agg T' = None /\
-                           (nstuck (match g with ACount => ROk (VInt 1) | ASum body => dbx ev v body rs end) ->
-                            eval ev (istate gd n iv v T' st) (agg_summand iv ar g m) = match g with ACount => ROk (VInt 1) | ASum body => dbx ev v body rs end)
+                           (nstuck (match g with ACount => ROk (VInt 1) | AAgg _ _ body => dbx ev v body rs end) ->
+                            eval ev (istate gd n iv v T' st) (agg_summand iv ar g m) = match g with ACount => ROk (VInt 1) | AAgg _ _ body => dbx ev v body rs end)
                | RFault f => exec_stmts brs ev (agg_pre iv ar g m) (istate gd n iv v (dframe (agg_ds g m)) st) = RFault f
                | RStuck _ => True
                end)).
-    { destruct g as [|body]; cbn [agg_pre agg_ds agg_summand].
+    { destruct g as [|sd aop body]; cbn [agg_pre agg_ds agg_summand].
       - exists []. repeat split; reflexivity.
       - pose proof (body_ready brs ev gd n iv ar v st body m Hifiv) as B.
         destruct (dconds ev v body) as [rs|f|k]; [|exists []; exact B|exists []; exact I].
         destruct B as (T' & E & Hiv' & Hoth & Hev). exists T'. split; [exact E|]. split; [exact Hiv'|]. split; [apply Hoth, Hnf|exact Hev]. }
     destruct Step as (T' & Step).
     unfold agg_step in Hn |- *.
-    assert (Edb : (match g with ACount => ROk (VInt 1) | ASum body => db ev v body end) =
-                  rbind (match g with ACount => ROk [] | ASum body => dconds ev v body end)
-                        (fun rs => match g with ACount => ROk (VInt 1) | ASum body => dbx ev v body rs end))
+    assert (Edb : (match g with ACount => ROk (VInt 1) | AAgg _ _ body => db ev v body end) =
+                  rbind (match g with ACount => ROk [] | AAgg _ _ body => dconds ev v body end)
+                        (fun rs => match g with ACount => ROk (VInt 1) | AAgg _ _ body => dbx ev v body rs end))
       by (destruct g; reflexivity).
     rewrite Edb in *.
-    destruct (match g with ACount => ROk [] | ASum body => dconds ev v body end) as [rs|f|k]; cbn [rbind] in *; [|rewrite Step; reflexivity|destruct Hn].
+    destruct (match g with ACount => ROk [] | AAgg _ _ body => dconds ev v body end) as [rs|f|k]; cbn [rbind] in *; [|rewrite Step; reflexivity|destruct Hn].
     destruct Step as (E & Hiv' & Hagg' & Hev). rewrite E. cbn [rbind]. rewrite exec_one.
     set (S1 := istate gd n iv v T' st).
     assert (Hg1 : fget agg S1 = Some (ty, acc)) by (unfold S1; rewrite istate_fget_other; assumption).
-    set (R := match g with ACount => ROk (VInt 1) | ASum body => dbx ev v body rs end) in *.
+    set (R := match g with ACount => ROk (VInt 1) | AAgg _ _ body => dbx ev v body rs end) in *.
     assert (HnR : nstuck R) by (destruct R; [exact I|exact I|destruct Hn]).
-    rewrite (exec_agg_update brs ev agg ty _ R S1 acc Hg1 Hu (Hev HnR)).
+    rewrite (exec_agg_update brs ev agg ty (agg_op g) _ R S1 acc Hg1 Hu (Hev HnR)).
     destruct R as [x|f|k]; cbn [rbind] in *; [|reflexivity|destruct Hn].
-    destruct (arith "+" acc x) as [sm|f|k] eqn:Ea; cbn [rbind] in *; [|reflexivity|destruct Hn].
+    destruct (arith (agg_op g) acc x) as [sm|f|k] eqn:Ea; cbn [rbind] in *; [|reflexivity|destruct Hn].
     unfold S1. rewrite (upd_istate_other gd n iv v T' st agg _ ty acc Hne Hnb Hagg' Hg). rewrite ipop_istate.
     destruct (assign_upd agg (conv ty sm) st ty acc Hg) as (_ & _ & Hg2 & _).
     assert (Hu2 : conv ty sm <> VUninit).
@@ -837,13 +837,13 @@ Qed.
 (* the two statements of one aggregate, run in a state in which its two variables are declared *)
 Lemma count_exec (brs : list branch) (ev : event) (idiom : string) (k : cnt) (n : nat) (st : state) (tcv : string) (v0 : value) :
   fget (cv_name k n) st = Some (tcv, v0) ->
-  fget (kagg k n) st = Some (agg_type k, conv (agg_type k) (VInt 0)) ->
+  fget (kagg k n) st = Some (agg_type k, conv (agg_type k) (agg_seed (k_agg k))) ->
   String.eqb (kagg k n) (cv_name k n) = false ->
   String.eqb (kagg k n) (iv_name n) = false -> String.eqb (kagg k n) (bo_name n) = false ->
   match assoc_ss (c_ctype (k_coll k), c_bank (k_coll k)) (ev_colls ev) with
   | None => exec_stmts brs ev (tcount_stmts idiom k n) st = RFault FRetrieve
   | Some (VVec l) =>
-      match agg_loop ev (agg_type k) (k_agg k) (k_guard k) l (conv (agg_type k) (VInt 0)) with
+      match agg_loop ev (agg_type k) (k_agg k) (k_guard k) l (conv (agg_type k) (agg_seed (k_agg k))) with
       | ROk z => exec_stmts brs ev (tcount_stmts idiom k n) st =
                  ROk (upd (kagg k n) z (upd (cv_name k n) (VVec l) st))
       | RFault f => exec_stmts brs ev (tcount_stmts idiom k n) st = RFault f
@@ -862,16 +862,16 @@ Proof.
     with (rbind (eval ev (upd (cv_name k n) c st) (CVar (cv_name k n)))
                 (fun x => match x with VNull => RFault FNullDeref | _ => ROk x end)).
   rewrite eval_var, (lookup_fget _ _ _ Hcv1).
-  assert (Hagg1 : fget (kagg k n) (upd (cv_name k n) c st) = Some (agg_type k, conv (agg_type k) (VInt 0))).
+  assert (Hagg1 : fget (kagg k n) (upd (cv_name k n) c st) = Some (agg_type k, conv (agg_type k) (agg_seed (k_agg k)))).
   { rewrite (Hoth _ Hne1). exact Hagg. }
-  assert (Hu : conv (agg_type k) (VInt 0) <> VUninit).
-  { apply arithable_not_uninit, conv_arithable. right. cbn. eauto. }
+  assert (Hu : conv (agg_type k) (agg_seed (k_agg k)) <> VUninit).
+  { apply arithable_not_uninit, conv_arithable. right. destruct (k_agg k) as [|[z|t nn dd] aop body]; cbn; eauto. }
   assert (Hib : String.eqb (iv_name n) (bo_name n) = false) by (apply nm_neq; [reflexivity|reflexivity|lia]).
   assert (Hbi : String.eqb (bo_name n) (iv_name n) = false) by (apply nm_neq; [reflexivity|reflexivity|lia]).
   assert (Hnf : forall j, String.eqb (kagg k n) (if_name j) = false) by (intro j; apply nm_neq_base; [reflexivity|reflexivity|discriminate]).
   assert (Hifiv : forall j, String.eqb (if_name j) (iv_name n) = false) by (intro j; apply nm_neq_base; [reflexivity|reflexivity|discriminate]).
   destruct c; cbn [rbind]; try exact I; try reflexivity.
-  destruct (agg_loop ev (agg_type k) (k_agg k) (k_guard k) l (conv (agg_type k) (VInt 0))) as [z|f|kk] eqn:Ec; [| |exact I].
+  destruct (agg_loop ev (agg_type k) (k_agg k) (k_guard k) l (conv (agg_type k) (agg_seed (k_agg k)))) as [z|f|kk] eqn:Ec; [| |exact I].
   - rewrite (loop_agg brs ev _ _ _ _ _ _ n _ l _ _ Hagg1 Hu Hne2 Hne3 Hnf Hifiv Hib Hbi); rewrite Ec; [reflexivity|exact I].
   - rewrite (loop_agg brs ev _ _ _ _ _ _ n _ l _ _ Hagg1 Hu Hne2 Hne3 Hnf Hifiv Hib Hbi); rewrite Ec; [reflexivity|exact I].
 Qed.
@@ -963,7 +963,7 @@ Qed.
 Lemma dcount_arithable (ev : event) (k : cnt) (z : value) : dcount ev k = ROk z -> arithable z.
 Proof.
   unfold dcount. destruct (assoc_ss _ _) as [c|]; try discriminate. destruct c; try discriminate.
-  apply agg_loop_arithable. apply conv_arithable. right. cbn. eauto.
+  apply agg_loop_arithable. apply conv_arithable. right. destruct (k_agg k) as [|[z0|t nn dd] aop body]; cbn; eauto.
 Qed.
 
 Lemma de_phases (ev : event) (e : ex) :
@@ -987,7 +987,7 @@ Fixpoint declared (e : ex) (n : nat) (st : state) : Prop :=
   match e with
   | EInt _ => True
   | ECount k => (exists t v, fget (cv_name k n) st = Some (t, v)) /\
-                fget (kagg k n) st = Some (agg_type k, conv (agg_type k) (VInt 0))
+                fget (kagg k n) st = Some (agg_type k, conv (agg_type k) (agg_seed (k_agg k)))
   | EBin _ a b => declared a n st /\ declared b (n + size a) st
   end.
 
@@ -1047,12 +1047,13 @@ Proof.
     unfold dcount in *.
     destruct (assoc_ss (c_ctype (k_coll k), c_bank (k_coll k)) (ev_colls ev)) as [c|]; cbn [rbind]; [|exact C].
     destruct c; cbn [rbind]; try exact I; try exact C.
-    destruct (agg_loop ev (agg_type k) (k_agg k) (k_guard k) l (conv (agg_type k) (VInt 0))) as [z|f|kk] eqn:El; cbn [rbind]; [|exact C|exact I].
+    destruct (agg_loop ev (agg_type k) (k_agg k) (k_guard k) l (conv (agg_type k) (agg_seed (k_agg k)))) as [z|f|kk] eqn:El; cbn [rbind]; [|exact C|exact I].
     destruct (assign_upd (cv_name k n) (VVec l) st tcv v0 Dcv) as (_ & _ & G1 & O1 & M1 & R1).
-    assert (Dagg1 : fget (kagg k n) (upd (cv_name k n) (VVec l) st) = Some (agg_type k, conv (agg_type k) (VInt 0))) by (rewrite (O1 _ N1); exact Dagg).
+    assert (Dagg1 : fget (kagg k n) (upd (cv_name k n) (VVec l) st) = Some (agg_type k, conv (agg_type k) (agg_seed (k_agg k)))) by (rewrite (O1 _ N1); exact Dagg).
     destruct (assign_upd (kagg k n) z _ (agg_type k) _ Dagg1) as (_ & _ & G2 & O2 & M2 & R2).
     assert (Zu : z <> VUninit).
-    { apply arithable_not_uninit. eapply agg_loop_arithable; [|exact El]. apply conv_arithable. right. cbn. eauto. }
+    { apply arithable_not_uninit. eapply agg_loop_arithable; [|exact El]. apply conv_arithable. right.
+      destruct (k_agg k) as [|[z0|t0 nn dd] aop body]; cbn; eauto. }
     eexists. split; [exact C|]. split; [congruence|]. split; [congruence|]. split; [|split].
     + intros y Hy.
       assert (Y1 : String.eqb y (kagg k n) = false).
@@ -1147,17 +1148,20 @@ Proof.
   - exists st. cbn. repeat split; auto.
   - unfold base_ok in Hb. apply andb_prop in Hb as [Hl _]. apply negb_true_iff in Hl.
     assert (N1 : String.eqb (kagg k n) (cv_name k n) = false) by (apply nm_neq; [reflexivity|exact Hl|lia]).
-    unfold tcount_decls. cbn [run_decls d_init d_name d_type eval rbind].
+    unfold tcount_decls. cbn [run_decls d_init d_name d_type].
+    assert (Einit : forall s0, eval ev s0 (agg_init (k_agg k)) = ROk (agg_seed (k_agg k))).
+    { intro s0. destruct (k_agg k) as [|[z0|t0 nn dd] aop body]; reflexivity. }
+    rewrite Einit. cbn [rbind].
     set (v0 := default_value (c_ctype (k_coll k))).
     destruct (declare_spec (cv_name k n) (c_ctype (k_coll k)) v0 st) as (G1 & O1 & M1 & R1); [apply Hf; left; reflexivity|].
     set (st1 := declare (cv_name k n) (c_ctype (k_coll k)) v0 st) in *.
     assert (F2 : fget (kagg k n) st1 = None) by (rewrite (O1 _ N1); apply Hf; right; left; reflexivity).
-    assert (Ei : init_value (agg_type k) (VInt 0) = conv (agg_type k) (VInt 0)).
+    assert (Ei : init_value (agg_type k) (agg_seed (k_agg k)) = conv (agg_type k) (agg_seed (k_agg k))).
     { unfold init_value. destruct (is_vector_type (agg_type k)) eqn:Ev; [|reflexivity].
-      exfalso. unfold agg_type in Ev. destruct (k_agg k) as [|body]; [discriminate|].
-      destruct (btype_cases body) as [E|E]; rewrite E in Ev; discriminate. }
+      exfalso. unfold agg_type, aggk_type in Ev. destruct (k_agg k) as [|sd aop body]; [discriminate|].
+      destruct (String.eqb (seed_type sd) "int" && String.eqb (btype body) "int"); discriminate. }
     rewrite Ei.
-    destruct (declare_spec (kagg k n) (agg_type k) (conv (agg_type k) (VInt 0)) st1 F2) as (G2 & O2 & M2 & R2).
+    destruct (declare_spec (kagg k n) (agg_type k) (conv (agg_type k) (agg_seed (k_agg k))) st1 F2) as (G2 & O2 & M2 & R2).
     eexists. split; [reflexivity|]. split; [split|].
     + exists (c_ctype (k_coll k)), v0.
       assert (N3 : String.eqb (cv_name k n) (kagg k n) = false) by (rewrite String.eqb_sym; exact N1).
